@@ -3,7 +3,7 @@ import re
 import absint
 from engines import float_div_sites, kinds_in_type, KIND_FIELDS, kind_of_segment, kind_elements
 from engines import check_required_steps
-from engines import check_complete_iteration
+from engines import check_complete_iteration, chain_filters
 from prov import Prov, params_of, call_atoms
 
 CLAIM = ("(ROLE+KIND) at every production call of InformationContent::set_{gene,omim_disease,orpha_disease} the `total` argument derives from the "
@@ -64,6 +64,11 @@ def run(ck, prog, ctx):
         ck.ob("ROLE", "%s/%d/total" % (base, i), ok,
               "%s: `total` of %s %s" % (owner, setter, "is the number of %s records (%s)" % (K, rec[0][2]) if ok else ("derives from a per-term id set length (%s)" % ids[0][2] if ids else "does not derive from the length of a record map")),
               where=b.where(t.line))
+        # N is the number of ALL records of the kind: no filter / truncation between the record map and the count
+        flt = chain_filters(b, pv, t.args[1])
+        ck.ob("ROLE", "%s/%d/total-unfiltered" % (base, i), not flt, "%s: `total` of %s counts %s" % (owner, setter, "every %s record" % K if not flt else "only the records that pass `%s`: N is not the number of %s records" % (flt[0], K)), where=b.where(t.line))
+        fltc = chain_filters(b, pv, t.args[2])
+        ck.ob("ROLE", "%s/%d/current-unfiltered" % (base, i), not fltc, "%s: `current` of %s counts %s" % (owner, setter, "every linked %s id of the term" % K if not fltc else "only the ids that pass `%s`" % fltc[0]), where=b.where(t.line))
         foreign = [r for r in tot if r[1] and r[1] != {K}]
         ck.ob("KIND", "%s/%d/total" % (base, i), not foreign, "%s: `total` of %s %s" % (owner, setter, "counts kind %s only" % K if not foreign else "counts another kind: %s" % foreign[0][2]), where=b.where(t.line))
         rec = [r for r in cur if r[0] == "records"]
